@@ -7,6 +7,10 @@ CONSTANTS
   MaxDstFrag = 2
   MaxQ = 3
   Ops = {"read", "length", "argv", "arrmsg", "memchr", "memfcn", "memstr", "memtok", "memcpy", "append", "qget"}
+  EmptyBases = {"slice", "guard"}
+  ForeignBytes = {97}
+  ArrKinds = {"exact", "shared", "roomy"}
+  MaxFail = 4
 VIEW View
 ACTION_CONSTRAINT Emit
 CHECK_DEADLOCK FALSE
